@@ -55,6 +55,7 @@ type uStep struct {
 	Len   int      `json:"len"`
 	Shape int      `json:"shape"`
 	Fail  bool     `json:"fail"`
+	Bare  bool     `json:"bare"`  // unbindl / unbindm: with a fresh StreamInfo that names the stream by its SSRC only
 	Stale bool     `json:"stale"` // rrtp: through the reader the stream had before it was unbound (a read that was in flight)
 	Kind  string   `json:"kind"`
 	Ms    int      `json:"ms"`
@@ -924,7 +925,11 @@ func uRunX(t *testing.T, sc *uScript, out *vfWriter, scribble, quiet bool, rb *u
 				smu.Lock()
 				delete(local, st.S)
 				smu.Unlock()
-				blocked, pan = uGuard(limit, func() { chain.UnbindLocalStream(b.info) })
+				info := b.info
+				if st.Bare {
+					info = &interceptor.StreamInfo{SSRC: b.info.SSRC}
+				}
+				blocked, pan = uGuard(limit, func() { chain.UnbindLocalStream(info) })
 			} else {
 				ev["skipped"] = true
 			}
@@ -934,7 +939,11 @@ func uRunX(t *testing.T, sc *uScript, out *vfWriter, scribble, quiet bool, rb *u
 				delete(remote, st.S)
 				staleRemote[st.S] = b
 				smu.Unlock()
-				blocked, pan = uGuard(limit, func() { chain.UnbindRemoteStream(b.info) })
+				info := b.info
+				if st.Bare {
+					info = &interceptor.StreamInfo{SSRC: b.info.SSRC}
+				}
+				blocked, pan = uGuard(limit, func() { chain.UnbindRemoteStream(info) })
 			} else {
 				ev["skipped"] = true
 			}
